@@ -184,7 +184,7 @@ def variants_of_eq(eq):
     # T6: redundant parentheses round a single right-hand-side operand (with and without blanks inside, and glued to what precedes it)
     for i, (kind, payload) in enumerate(atoms):
         if kind == 'term' and i >= 2:
-            for par in (('(', ')'), ('( ', ' )')):
+            for par in (('(', ')'), ('( ', ' )'), ('(\t', '\t)'), ('(  ', '   )'), ('(\n    ', '\n)')):
                 lay = Layout()
                 lay.term[i] = {'paren': par}
                 yield ('T6-paren-operand', i, lay)
@@ -275,7 +275,28 @@ def compare(base_syms, script, tag, as_set=False):
         return [('%s:symbols' % tag, a, b, 'symbols differ under a layout change: %r' % script)]
     if code_asts(base_syms) != code_asts(syms):
         return [('%s:code' % tag, code_asts(base_syms), code_asts(syms), 'generated code differs in meaning under a layout change: %r' % script)]
+    if tag.startswith(('T6-paren', 'T3-add', 'all-at-once', 'T6-break')):
+        # the normal form reached from this layout is a fixed point too (whitespace of the layout must not survive in it)
+        return fixed_point(syms, tag + ':')
     return []
+
+
+def fixed_point(syms, prefix=''):
+    out = []
+    for s in syms:
+        if s.equation is None or '`' in s.equation or s.type.name != 'ENDOGENOUS':
+            continue
+        if re.search(r"self\['\w+', [^'\"]", s.code or ''):
+            continue  # a backticked period index (X[`1`]) loses its backticks in the normal form: excluded by the statement
+        text = re.sub(r'\[t([+-]\d+)?\]', lambda m: '[%s]' % (m.group(1) if m.group(1) else '0'), s.equation)
+        again, err2 = parse(text)
+        if again is None:
+            out.append((prefix + 'fixed-point:rejected', 'accepted', err2, 'normalised equation is rejected when fed back: %r' % text))
+            continue
+        hit = [x for x in again if x.name == s.name]
+        if not hit or hit[0].equation != s.equation or hit[0].code != s.code:
+            out.append((prefix + 'fixed-point', (s.equation, s.code), (hit[0].equation, hit[0].code) if hit else None, 'normalised equation is not a fixed point'))
+    return out
 
 
 # --------------------------------------------------------------------------- program catalogue
@@ -434,19 +455,7 @@ def run_program(case, p=None):
         if [tuple(s) for s in base] != merged:
             out.append(('merge-law', merged[:4], [tuple(s) for s in base][:4], 'parse of the script differs from the merge of its statements'))
     # fixed point of the normalised equations
-    for s in base:
-        if s.equation is None or '`' in s.equation or s.type.name != 'ENDOGENOUS':
-            continue
-        if re.search(r"self\['\w+', [^'\"]", s.code or ''):
-            continue  # a backticked period index (X[`1`]) loses its backticks in the normal form: excluded by the statement
-        text = re.sub(r'\[t([+-]\d+)?\]', lambda m: '[%s]' % (m.group(1) if m.group(1) else '0'), s.equation)
-        again, err2 = parse(text)
-        if again is None:
-            out.append(('fixed-point:rejected', 'accepted', err2, 'normalised equation is rejected when fed back: %r' % text))
-            continue
-        hit = [x for x in again if x.name == s.name]
-        if not hit or hit[0].equation != s.equation or hit[0].code != s.code:
-            out.append(('fixed-point', (s.equation, s.code), (hit[0].equation, hit[0].code) if hit else None, 'normalised equation is not a fixed point'))
+    out += fixed_point(base)
     case['_variants'] = n_variants
     return out
 
